@@ -48,7 +48,7 @@ for d in json.load(open(os.path.join(out,'demo_files.json'))):
 PY
 echo "== existing suite with change (demo removed)" >> "$LOG"
 go test -vet=off -count=1 -timeout 25m ./... > "$OUT/suite_changed.out" 2>&1
-grep -v "^ok\|no test files" "$OUT/suite_changed.out" | grep -v "TestInitConfigNonNotExistError\|config_test.go:25\|^FAIL$\|FAIL	github.com/EscanBE/evermint/v12/client	" | head -30 > "$OUT/suite_failures.txt"
+grep -E "^(--- FAIL|FAIL|panic:|ok .*\(cached\))" "$OUT/suite_changed.out" | grep -v "TestInitConfigNonNotExistError\|^FAIL$\|FAIL	github.com/EscanBE/evermint/v12/client	" | head -30 > "$OUT/suite_failures.txt"
 NF=$(grep -c . "$OUT/suite_failures.txt")
 echo "unexpected suite failure lines: $NF" >> "$LOG"
 VERDICT=REJECTED
